@@ -64,6 +64,23 @@ def ss2_uw(og, ng, bpg=16):
          "ext2fs_mark_generic_bmap.0:%d" % (nb + 1), "ext2fs_unmark_generic_bmap.0:%d" % (nb + 1),
          "ext2fs_test_generic_bmap.0:%d" % (nb + 1), "ext2fs_mark_block_bitmap_range2.0:6"]
 
+def ss_uw(ng):
+    n = max(ng * 8, 16) + 2
+    ncl = 2 + ng * 16
+    return ["main.%d:%d" % (i, ncl + 1) for i in range(10)] + \
+        ["resize2fs_calculate_summary_stats.%d:%d" % (i, n) for i in range(4)] + \
+        ["ext2fs_bitcount.0:5", "ext2fs_bitcount.1:3", "ext2fs_bitcount.2:5",
+         "ext2fs_test_generic_bmap.0:%d" % ncl, "ext2fs_test_generic_bmap.1:%d" % ncl,
+         "ext2fs_get_block_bitmap_range2.0:%d" % ncl, "ext2fs_get_block_bitmap_range2.1:9", "ext2fs_get_block_bitmap_range2.2:3",
+         "ext2fs_group_desc_csum_set.0:%d" % (ng + 1)]
+
+def it_uw(ngrp, ipb, nblk=16):
+    return ["main.%d:%d" % (i, nblk + 1) for i in range(11)] + \
+        ["move_itables.0:%d" % (ngrp + 1), "move_itables.1:%d" % (ipb * 1024 + 1), "move_itables.2:%d" % (ipb + 1),
+         "move_itables.3:%d" % (ngrp + 1), "ext2fs_block_alloc_stats2.0:%d" % (nblk + 1),
+         "io_channel_read_blk64.0:%d" % (nblk + 1), "io_channel_read_blk64.1:%d" % (ipb + 1),
+         "io_channel_write_blk64.0:%d" % (nblk + 1), "io_channel_write_blk64.1:%d" % (ipb + 1)]
+
 HARNESSES = [
     dict(name="errflag", src="errflag.c",
          funcs=["resize_fs", "ext2fs_dup_handle"],
@@ -170,6 +187,28 @@ HARNESSES = [
          unwind=4, witness_per_config=True, backends=["default"],
          bound="3 -> 2 groups, 3 -> 3 (function must not apply), thorough 4 -> 3; 16 blocks per group, inode table 2 blocks; in-use / metadata sets, "
                "group metadata locations, descriptor blocks 1..2, reserved GDT 0..2, sparse_super2 and both s_backup_bgs pairs symbolic"),
+    dict(name="dirref", src="dirref.c",
+         funcs=["inode_ref_fix", "check_and_change_inodes", "ext2fs_extent_translate", "ext2fs_free_extent_table"],
+         extra_src=["resize/extent.c"],
+         configs=[{"NENT": 2, "HAS_PROGRESS": 0}, {"NENT": 2, "HAS_PROGRESS": 1}],
+         unwind=6, witness_per_config=True, backends=["default"],
+         bound="one directory, 2 entries (inode number incl. 0, offset incl. 0, name bytes symbolic), inode map of 2 symbolic entries, "
+               "metadata_csum and 'directory number existed in the old fs' symbolic, symbolic read/write/progress/iterator errors"),
+    dict(name="sumstats", src="sumstats.c",
+         funcs=["resize2fs_calculate_summary_stats", "ext2fs_bitcount", "ext2fs_group_blocks_count", "ext2fs_bg_free_blocks_count_set"],
+         extra_src=["lib/ext2fs/bitops.c", "lib/ext2fs/blknum.c"],
+         configs=[{"NG": 2, "RATIO": 1, "_unwindset": ss_uw(2)}, {"NG": 2, "RATIO": 4, "_unwindset": ss_uw(2)},
+                  {"NG": 3, "RATIO": 4, "_unwindset": ss_uw(3), "_tier": "thorough"}],
+         unwind=4, witness_per_config=True, backends=["default"],
+         bound="2 (thorough 3) groups x 16 clusters, cluster ratio 1 and 4, 8 inodes per group, last group 1..16 clusters; every bitmap bit and BG flag symbolic"),
+    dict(name="itmove", src="itmove.c",
+         funcs=["move_itables", "ext2fs_inode_table_loc", "ext2fs_inode_table_loc_set"],
+         extra_src=["lib/ext2fs/blknum.c"],
+         cut_statics={"resize/resize2fs.c": ["mark_table_blocks"]},
+         configs=[{"DIFF": 1, "ZT": 2, "_unwindset": it_uw(1, 4)}, {"DIFF": -1, "ZT": 0, "_unwindset": it_uw(1, 4)}],
+         unwind=4, witness_per_config=True, backends=["default"],
+         bound="1 group, inode table of 4 blocks of 1 KiB at block 6 of a 16-block device, 0..4 trailing all-zero blocks (per query), rest of the "
+               "device arbitrary; new table anywhere (all overlaps, both directions; direction per query)"),
 ]
 MANIFEST = {
     "text": "Bounded-exhaustive model checking (CBMC) of four kernels of resize2fs compiled from the real sources: the error-flag "
